@@ -31,7 +31,7 @@ fn targeted_type(rng: &mut Rng, k: u64) -> Ty {
 }
 
 pub fn run(cx: &mut Ctx) {
-    let n: u64 = if cx.thorough { 400_000 } else { 12_000 };
+    let n: u64 = if cx.thorough { 400_000 } else { 80_000 };
     for i in cx.cases(n) {
         if cx.out_of_time() {
             break;
